@@ -99,3 +99,12 @@ Proof.
   intros. repeat split; try reflexivity; intros E; unfold dual_apply; cbn [map fst snd]; rewrite E; reflexivity.
 Qed.
 Print Assumptions C01_every_mask_target_uses_the_mask_hook.
+
+(* "each returned mask voxel holds the value of an input mask voxel": for every exported class the interpolation
+   that reaches the mask path is nearest -- the inherited override (and then apply hands on its own `interpolation`
+   formal, not self.interpolation), a literal INTER_NEAREST, or no resampling at all (regenerated class table) *)
+From DV.gen Require Import Gen_classtab.
+From DV.proofs Require Import ClassFacts CF_C01.
+Theorem C01_every_mask_path_resamples_with_nearest : forallb mask_interp_ok class_table = true.
+Proof. exact mask_paths_nearest. Qed.
+Print Assumptions C01_every_mask_path_resamples_with_nearest.
